@@ -84,7 +84,7 @@ class SrcWorld(World):
         elif variant == "unknown":
             req.destination_id = UnsignedByteField(77, c["idw_d"])
         elif variant == "valid_wide":  # same destination entity, id given with a wider field
-            req.destination_id = UnsignedByteField(2, 2 * c["idw_d"])
+            req.destination_id = UnsignedByteField(c["idv_d"], 2 * c["idw_d"])
         return req
 
     # ---- events ------------------------------------------------------------------------------
@@ -101,7 +101,7 @@ class SrcWorld(World):
     def peer_conf(self, st, **over):
         c = self.c
         w = max(c["idw_s"], c["idw_d"])
-        p = st.peer or {"src": [1, w], "dst": [2, w], "seq": [0, c["seqw"]], "mode": c["mode"], "crc": c["crc_flag"]}
+        p = st.peer or {"src": [c["idv_s"], w], "dst": [c["idv_d"], w], "seq": [c["seq0"], c["seqw"]], "mode": c["mode"], "crc": c["crc_flag"]}
         kw = dict(src=tuple(p["src"]), dst=tuple(p["dst"]), seq=tuple(p["seq"]), mode=p["mode"], crc=p["crc"])
         kw.update(over)
         return pdus.conf(**kw)
@@ -125,7 +125,8 @@ class SrcWorld(World):
     def cur_tid(self, st, wrong=False):
         c = self.c
         p = st.peer or {"seq": [0, c["seqw"]]}
-        return TransactionId(UnsignedByteField(1, c["idw_s"]), UnsignedByteField(p["seq"][0] + (9 if wrong else 0), p["seq"][1]))
+        wrong_seq = (p["seq"][0] + 9) % (1 << (8 * p["seq"][1]))
+        return TransactionId(UnsignedByteField(c["idv_s"], c["idw_s"]), UnsignedByteField(wrong_seq if wrong else p["seq"][0], p["seq"][1]))
 
     def apply(self, st, ev):
         out = {}
